@@ -40,7 +40,7 @@ THEOREM_PRED = {'C10_solved_iff': 'IsProblemSolved', 'C10_indiffInfOrUnb_iff': '
                 'C10_counterexample_infeasible': 'IsProblemInfeasible',
                 'C10_solvedOrFeasible': 'IsProblemSolvedOrFeasible', 'C10_counterexample_solvedOrFeasible': 'IsProblemSolvedOrFeasible',
                 'C10_objective': 'objective', 'C10_counterexample_objective': 'objective', 'C10_no_objective': 'objective',
-                'C10_report_model_eq_generated': 'objective', 'C10_code_echo': 'code', 'C10_alt': 'altsol', 'C10_chain_forwards_code': 'altsol', 'C10_feasrelax': 'message:', 'C10_gen_msgTable': 'message', 'C10_msg': 'message', 'C10_gen_suffix_guards': 'suffix:', 'C10_gen_reg': 'table', 'C10_gen_add': 'table', 'C10_reg': 'table', 'C10_addResults': 'table', 'C10_kappa': 'suffix:kappa', 'C10_unbdd': 'suffix:unbdd', 'C10_dunbdd': 'suffix:dunbdd', 'C10_iis': 'suffix:iis', 'C10_solcheck': 'message:chk', 'C10_extras_eq_generated': 'suffix:', 'C10_vectors_echo': 'vectors',
+                'C10_report_model_eq_generated': 'objective', 'C10_code_echo': 'code', 'C10_alt': 'altsol', 'C10_chain_forwards_code': 'altsol', 'C10_feasrelax': 'message:', 'C10_gen_msgTable': 'message', 'C10_msg': 'message', 'C10_gen_suffix_guards': 'suffix:', 'C10_gen_reg': 'table', 'C10_gen_add': 'table', 'C10_reg': 'table', 'C10_addResults': 'table', 'C10_kappa': 'suffix:kappa', 'C10_unbdd': 'suffix:unbdd', 'C10_dunbdd': 'suffix:dunbdd', 'C10_iis': 'suffix:iis', 'C10_solcheck': 'message:chk', 'C10_gen_app': 'delivery', 'C10_message_delivery': 'delivery', 'C10_gen_ray_bits': 'suffix:', 'C10_ray_suffixes_by_option': 'suffix:', 'C10_extras_eq_generated': 'suffix:', 'C10_vectors_echo': 'vectors',
                 'C10_enum': 'enum', 'C10_registry': 'table', 'C10_ranges': 'table', 'C10_rangeRows': 'table',
                 'C10_predicate_inclusions': 'Is'}
 
@@ -141,6 +141,11 @@ def canon_report(line, expected_nobj, stub=0):
        with that expectation by the caller."""
     head, obs = line.split(' | ', 1)
     _, c, n, p, d, k, fl = head.split(' ')
+    if obs.startswith('sol-absent'):
+        kv = dict(x.split('=', 1) for x in obs.split(' ')[1:])
+        return 'absent', None, {'absent': True, 'code': int(c), 'nobj_in': int(n), 'primal': int(p), 'dual': int(d), 'nalt_in': int(k), 'flags': int(fl),
+                                'stdoutstatus': int(kv['stdoutstatus']), 'stdoutobj': int(kv['stdoutobj']), 'stdoutprimal': int(kv['stdoutprimal']),
+                                'stdoutdual': int(kv['stdoutdual'])}
     if obs.startswith('sol-unreadable'):
         return None, None, {'error': obs, 'code': int(c), 'nobj_in': int(n), 'primal': int(p), 'dual': int(d), 'nalt_in': int(k), 'flags': int(fl)}
     kv = dict(x.split('=', 1) for x in obs.split(' '))
@@ -152,7 +157,7 @@ def canon_report(line, expected_nobj, stub=0):
          'altcodes': [] if kv['altcodes'] == '-' else kv['altcodes'].split(','),
          'hfs': [] if kv['hfs'] == '-' else [int(x) for x in kv['hfs'].split(',')], 'altmsg': int(kv['altmsg']),
          'flags': int(fl), 'fr': int(kv['fr']), 'orig': int(kv['orig']), 'kappamsg': int(kv['kappamsg']), 'extra': int(kv['extra']),
-         'roundmsg': int(kv['roundmsg']), 'altrange': int(kv['altrange']), 'stdoutmsg': int(kv['stdoutmsg']), 'stdoutobj': int(kv['stdoutobj']),
+         'roundmsg': int(kv['roundmsg']), 'altrange': int(kv['altrange']), 'stdoutmsg': int(kv['stdoutmsg']), 'stdoutobj': int(kv['stdoutobj']), 'stdoutprimal': int(kv['stdoutprimal']), 'stdoutdual': int(kv['stdoutdual']),
          'sufs': set() if kv['sufs'] == '-' else set(kv['sufs'].split(',')), 'order': '' if kv['order'] == '-' else kv['order']}
     o['nobj_expected'] = expected_nobj
     op = 'report %d %d %d %d %d %d' % (o['code'], expected_nobj, o['primal'], o['dual'], o['nalt_in'], stub)
@@ -177,11 +182,17 @@ def run(ck):
     if rc2 != 0:
         translator_ok = False
         out, err = out + out2, err + err2
-    N_THEOREMS = 62
+    gen3 = os.path.join(LEAN, 'MpVerif', 'Gen', 'StatusFlags.lean')
+    rc3, out3, err3 = sh([sys.executable, os.path.join(VERIF, 'translators', 'gen_flags.py'), REPO, gen3, os.path.join(BUILD, 'tr')], timeout=600)
+    ck.log((out3.strip() or err3.strip())[-600:])
+    if rc3 != 0:
+        translator_ok = False
+        out, err = out + out3, err + err3
+    N_THEOREMS = 67
     proof_ok, failing = False, []
     if translator_ok:
         proof_ok, failing = ck.proof_stage('MpVerif.C10.Props', 'MpVerif/C10/Props.lean', 'C10_',
-                                            ['MpVerif/C10/*.lean', 'MpVerif/Gen/Status.lean', 'MpVerif/Gen/StatusReport.lean'], expect_min=N_THEOREMS)
+                                            ['MpVerif/C10/*.lean', 'MpVerif/Gen/Status.lean', 'MpVerif/Gen/StatusReport.lean', 'MpVerif/Gen/StatusFlags.lean'], expect_min=N_THEOREMS)
         ck.log('proof stage: ok=%s failing=%s' % (proof_ok, failing[:12]))
         if ck.tier == 'thorough' and proof_ok:
             bad = ck.leanchecker(['MpVerif.C10.Props'])
@@ -212,7 +223,7 @@ def run(ck):
     work = os.path.join(BUILD, 'c10')
     os.makedirs(work, exist_ok=True)
 
-    corr = {'enum': 0, 'pred': 0, 'table': 0, 'report': 0, 'extras': 0, 'markers': 0, 'addres': 0, 'class': 0, 'doctable': 0}
+    corr = {'enum': 0, 'pred': 0, 'table': 0, 'report': 0, 'extras': 0, 'markers': 0, 'addres': 0, 'app': 0, 'raybits': 0, 'class': 0, 'doctable': 0}
     corr_bad = {}
     hist = {'pred_true': {p: 0 for p in PREDS}, 'class': {}, 'report_objShown': 0, 'report_runs': 0,
             'report_by_class': {}, 'models': {}}
@@ -432,6 +443,18 @@ def run(ck):
     if rc != 0 or len(impl_add) != len(adds):
         ck.add_violation('table:addres-harness-failed', 'addres harness exit %d, %d of %d lines: %s' % (rc, len(impl_add), len(adds), err[-300:]), {}, found_input=False)
 
+    # ------------------------------------------------------------ option value of alg:rays -> atoms, through the model
+    rb = model(['raybits %d' % r for r in range(8)])
+    raybits = {}
+    for r in range(8):
+        want = 'raybits %d | %d %d' % (r, r & 1, (r >> 1) & 1)         # option text: 1 = .unbdd, 2 = .dunbdd
+        corr['raybits'] += 1
+        if rb is not None:
+            if r >= len(rb) or rb[r] != want:
+                disagree('raybits', 'raybits %d' % r, want, rb[r] if r < len(rb) else None)
+            else:
+                raybits[r] = tuple(int(x) for x in rb[r].split(' | ')[1].split())
+
     # ------------------------------------------------------------ complete driver runs
     # tiny.nl has one objective, noobj.nl none.  Documented postsolve behaviour: one objective value per model
     # objective.  This is an *expectation* checked on every run (observed sol.objvals.size() vs the NL header),
@@ -458,6 +481,10 @@ def run(ck):
               ('noobj', ['@noampl'], (1,), (0,), [(0, 0)], False, F0),
               ('tiny', ['@noampl', '@wantsol=9'], (1,), (0,), [(1, 1)], False, F0),   # wantsol 8: message suppressed on stdout, .sol still written
               ('tiny', ['@noampl', '@wantsol=7'], (1,), (0,), [(1, 0)], False, F0),   # wantsol 2,4: solution printed as well
+              ('tiny', ['@noampl', '@wantsol=0'], (1,), (0,), [(1, 1)], False, F0),   # round 7: no .sol at all, message on stdout only
+              ('tiny', ['@noampl', '@wantsol=6'], (1,), (0,), [(1, 1), (0, 1)], False, F0), ('tiny', ['@noampl', '@wantsol=8'], (1,), (0,), [(1, 1)], False, F0),
+              ('tiny', ['@noampl', '@wantsol=14'], (1,), (0,), [(1, 1)], False, F0), ('tiny', ['@noampl', '@wantsol=15'], (1,), (0,), [(1, 1)], False, F0),
+              ('tiny', ['@noampl', '@wantsol=3'], (1,), (0,), [(1, 1)], False, F0), ('tiny', ['@noampl', '@wantsol=5'], (1,), (0,), [(0, 0)], False, F0),
               ('mip2', ['mip:round=3'], (1,), (0,), [(1, 1)], False, (16,)), ('mip2', ['mip:round=6', 'tech:reporttimes=1'], (1,), (0,), [(1, 1)], False, (16,)),
               ('tiny', ['sol:count=1'], (1,), (0, 2), [(1, 1)], False, F0),        # multiple solutions wanted, no stub: no numbered files
               ('tiny', [STUB], (1,), (2,), [(1, 1)], False, (4, 6))]               # intermediate solutions without objective value
@@ -509,12 +536,45 @@ def run(ck):
         o_round, o_count, o_noampl, o_wantsol = optv('mip:round', 0), optv('sol:count', 0), '@noampl' in mopts, optv('@wantsol', 1)
         is_mip = mn == 'mip2'
         xops, xcans, mkops, mkcans = [], [], [], []
+        o_noampl0, o_wantsol0 = '@noampl' in mopts, next((int(x.split('=')[1]) for x in mopts if x.startswith('@wantsol=')), 1)
+        appops, appcans = [], []
+
+        def app_obs(o, present):
+            """where the message / the .sol file appeared in this run vs the invocation (oracle from the option text:
+            wantsol 1 write .sol, 2 print primal, 4 print dual, 8 suppress message; -AMPL: .sol only) + op for the model"""
+            ampl, w = int(not o_noampl0), (o_wantsol0 if o_noampl0 else 0)
+            if ampl:
+                got = (int(present), 0, 0, 0)            # stdout is not captured under -AMPL: only the file is observed
+                want = (1, 0, 0, 0)
+            else:
+                msg = o['stdoutstatus'] if not present else o['stdoutmsg']
+                got = (int(present), msg, o['stdoutprimal'], o['stdoutdual'])
+                want = (int(bool(w & 1)), int(not (w & 8)), int(bool(w & 2) and bool(o['primal'])), int(bool(w & 4) and bool(o['dual'])))
+            if got != want:
+                rep_fail.setdefault('delivery:sol-or-stdout', []).append((o['code'], (mn, tuple(mopts), o['nobj_in'], o['primal'], o['dual'], o['nalt_in'])))
+            hist['delivery'] = hist.get('delivery', {})
+            key = 'ampl' if ampl else 'wantsol=%d' % w
+            hist['delivery'][key] = hist['delivery'].get(key, 0) + 1
+            if not ampl:                                  # model: printing of a vector also needs the vector
+                appops.append('app %d %d' % (ampl, w))
+                appcans.append('app %d %d | sol=%d msg=%d primal=%d dual=%d' % (ampl, w, got[0], got[1],
+                               got[2] if o['primal'] else int(bool(w & 2)), got[3] if o['dual'] else int(bool(w & 4))))
         for l in lines:
             op, can, o = canon_report(l, nobj_model, stub)
+            if op == 'absent':
+                app_obs(o, False)
+                continue
             if op is None:
                 ck.add_violation('report:no-sol-file', 'no readable .sol file for scripted answer %s on %s' % (o, mn), {'answer': o, 'model': mn}, found_input=True)
                 continue
             mops.append(op); cans.append(can); obs.append(o)
+            app_obs(o, True)
+        ma = model(appops)
+        if ma is not None:
+            for i, c_ in enumerate(appcans):
+                corr['app'] = corr.get('app', 0) + 1
+                if i >= len(ma) or ma[i] != c_:
+                    disagree('app', appops[i], c_, ma[i] if i < len(ma) else None)
         m = model(mops)
         for i, (can, o) in enumerate(zip(cans, obs)):
             corr['report'] += 1
@@ -558,7 +618,8 @@ def run(ck):
                 if exp[key] != got[key]:
                     rep_fail.setdefault(('message:%s' if key in ('fr', 'orig', 'chk') else 'suffix:%s') % key + (':missing' if exp[key] else ':unexpected'), []).append((o['code'], tag))
             xops.append('extras %d %d %d %d %d %d %d %d %d' % (o['code'], nobj_model, int(o_fr != 0), int(o_fr != 0 and bool(fl & 1)), int(o_kappa != 0),
-                                                                  o_rays & 1, (o_rays >> 1) & 1, int(o_iis != 0), viol))
+                                                                  raybits.get(o_rays, (o_rays & 1, (o_rays >> 1) & 1))[0],
+                                                                  raybits.get(o_rays, (o_rays & 1, (o_rays >> 1) & 1))[1], int(o_iis != 0), viol))
             # order of the message pieces (ReportSolution2AMPL step table of the model)
             naltrep = o['nalt_in'] if want_multi else 0
             mkops.append('markers %d %d %d %d %d %d %d %d %d' % (o['code'], nobj_model, int(o_fr != 0), int(o_fr != 0 and bool(fl & 1)), int(o_kappa != 0),
